@@ -23,7 +23,9 @@ fn calculate_view_dimensions<T>(start: Coordinate, end: Coordinate, toodee: &imp
         num_cols = 0;
         num_rows = 0;
     }
-    let data_start = start.1 * stride + start.0;
+    // An empty view does not cover any cell, so don't derive an offset from `start`: for windows
+    // on the far edge (e.g. `start == end == (num_cols, num_rows)`) it lies past the buffer.
+    let data_start = if num_rows == 0 { 0 } else { start.1 * stride + start.0 };
     let data_len = {
         if num_rows == 0 {
             0
